@@ -420,6 +420,8 @@ class Mineral:
 
             strain_rate = (velocity_gradient + velocity_gradient.transpose()) / 2
             strain_rate_max = np.abs(la.eigvalsh(strain_rate)).max()
+            if strain_rate_max == 0:
+                strain_rate_max = 1.0  # No strain, nothing to non-dimensionalise.
             deformation_gradient, orientations, fractions = _utils.extract_vars(
                 y, self.n_grains
             )
